@@ -604,6 +604,23 @@ def r3_full_read_mode(ck, cx):
                       message='_transact calls _recv with full=%s instead of the flag chosen by execute(): the short probe read that recognises an '
                               'exception reply is skipped and the client waits for the length of a normal reply' % U(e._sub.args[1])[:40])
     ck.floor('R3', nf, 1, '_recv calls in _transact')
+    # ... and the length predicted for the reply is the length the REPLY read gets: the last _recv of a path is called with the
+    # response_length parameter itself (a local echo is a read of its own, sized by what was sent)
+    rlp = tr.params[2] if len(tr.params) > 2 else 'response_length'
+    nr = 0
+    for p in cx.enum(tr, sh.tm, max_depth=0):
+        annotate(p, heap=False)
+        recvs = [e for e in p.ev if e.kind == 'call' and callee_name(e.node) == '_recv' and e._sub.args]
+        # the read of the local echo is sized by the number of bytes sent (the result of _send) and is not a reply read
+        recvs = [e for e in recvs if not (isinstance(e._sub.args[0], ast.Call) and callee_name(e._sub.args[0]) == '_send')]
+        if not recvs:
+            continue
+        nr += 1
+        a0 = U(recvs[-1]._sub.args[0])
+        ck.ob('R3', tr.qn, 'the reply is read with the predicted length unchanged', a0 == rlp, detail='reply-read-size-changed', loc=cx.floc(tr, recvs[-1].node),
+              message='_transact reads the reply with _recv(%s) instead of the predicted length it was given: _recv sizes its probe read and recognises an exception reply by the '
+                      'first bytes of what it reads, so a read that is to cover more than the reply (or less) asks the port for the wrong number of bytes' % a0[:60])
+    ck.floor('R3', nr, 1, 'reply reads of _transact')
 
 
 
